@@ -54,16 +54,16 @@ def plain(v):
 class Ctx:
     """one engine context per call (fresh path)"""
 
-    def __init__(self):
+    def __init__(self, root=None):
         from engine.interp import Path
-        self.repo = Repo()
+        self.repo = Repo(root) if root else Repo()
         obl = V.Obl("crosscheck", "C00", lambda vc: None, [], None, "")
         self.vc = V.VC(self.repo, Path([]), obl)
 
 
-def engine_call(fn):
+def engine_call(fn, root=None):
     try:
-        c = Ctx()
+        c = Ctx(root)
         return ("ok", plain(fn(c.vc)))
     except RaiseEx as e:
         return ("raises", e.name)
@@ -121,11 +121,23 @@ def main():
         cases.append((f"subgraph {edges}",
                       lambda edges=edges, roots=roots: [list(NA.subgraph(roots, lambda v: edges[v])[0]), {k: list(v) for k, v in NA.subgraph(roots, lambda v: edges[v])[1].items()}],
                       lambda vc, edges=edges, roots=roots: (lambda r: [list(r[0]), {k: list(v) for k, v in r[1].items()}])(vc.call(f"{UA}:subgraph", list(roots), inc_e(edges)))))
+    # pieces of Python's semantics the engine once got wrong, on tiny functions of tools/selftest_repo (not part of cirkit)
+    SELF = os.path.join(ROOT, "tools", "selftest_repo")
+    SM = "cirkit/semantics.py"
+    spec = importlib.util.spec_from_file_location("semantics_native", os.path.join(SELF, SM))
+    NSM = importlib.util.module_from_spec(spec)
+    spec.loader.exec_module(NSM)
+    for _ in range(40):
+        xs = [rng.randint(0, 9) for _ in range(rng.randint(0, 6))]
+        for fn in ("remove_while_iterating", "move_to_front_while_iterating", "move_to_back_while_iterating", "append_while_iterating"):
+            cases.append((f"{fn}({xs})", lambda xs=xs, fn=fn: getattr(NSM, fn)(list(xs)), lambda vc, xs=xs, fn=fn: vc.call(f"{SM}:{fn}", list(xs)), SELF))
+        v, w = rng.randint(-5, 5), rng.randint(-5, 5)
+        cases.append((f"cached_then_changed({v},{w})", lambda v=v, w=w: NSM.cached_then_changed(v, w), lambda vc, v=v, w=w: vc.call(f"{SM}:cached_then_changed", v, w), SELF))
     bad = unsupported = 0
-    for label, nat, eng in cases:
+    for label, nat, eng, *rest in cases:
         want = native_call(nat)
         try:
-            got = engine_call(eng)
+            got = engine_call(eng, rest[0] if rest else None)
         except Unsupported as e:
             unsupported += 1
             continue
